@@ -459,6 +459,12 @@ Definition kabs (s : kstate) (C0 : list nat) : rstate :=
   {| r_ents := map (sent s) C0; r_next := length (k_nodes s) - 1; r_subs := hsubs s; r_iters := [];
      r_used := k_used s; r_alive := k_alive s |}.
 
+Lemma nkey_put_node : forall s id n n' y, dnode s id = Ok n -> sn_key n' = sn_key n -> nkey (put_node s id n') y = nkey s y.
+Proof.
+  intros. unfold nkey. rewrite dnode_put_node by (eapply dnode_lt; eauto). destruct (Nat.eqb id y) eqn:E; auto.
+  apply Nat.eqb_eq in E. subst. rewrite H, H0. reflexivity.
+Qed.
+
 Definition rc4s (rc : Z * Z * Z) : Z * Z * Z * Z := let '(a, b, c) := rc in (a, a, b, c).
 
 Definition kstep_ok (rc : Z * Z * Z) (s : kstate) (C0 : list nat) (o : op) (orc : list Z) : Prop :=
@@ -467,7 +473,8 @@ Definition kstep_ok (rc : Z * Z * Z) (s : kstate) (C0 : list nat) (o : op) (orc 
     a_step skip_before (rc4s rc) (kabs s C0) o = (kabs s' C0', x', ns) /\
     x = out_wrap x' /\
     ((SG s' C0' /\ k_iters s' = k_iters s /\ k_used s' = k_used s /\
-      (forall y n, In y C0 -> dnode s y = Ok n -> sn_ref n <> 1 -> In y C0')) \/ k_alive s' = false).
+      (forall y n, In y C0 -> dnode s y = Ok n -> sn_ref n <> 1 \/ (forall k, o <> Rm k) -> In y C0') /\
+      (forall y, In y C0 -> In y C0' -> nkey s' y = nkey s y)) \/ k_alive s' = false).
 
 Lemma sent_key : forall s id, re_key (sent s id) = nkey s id.
 Proof. intros. unfold sent, nkey. destruct (dnode s id); auto. Qed.
@@ -620,15 +627,16 @@ Proof.
   destruct (find_live_sent s C0 k H) as [F1 F2]. destruct m as [y|].
   - destruct L2 as [Y1 Y2]. destruct (sg_node _ _ _ _ _ H y Y1) as [n [ky [N1 [N2 _]]]]. rewrite N1. simpl.
     rewrite (F1 y Y1 Y2). rewrite (sent_node _ _ _ _ N1 N2). simpl.
-    exists s, C0, (OVal (sn_val n)), (OVal (sn_val n)), []. repeat split; auto.
-  - rewrite (F2 L2). exists s, C0, (OVal 0%N), (OVal 0%N), []. repeat split; auto.
+    exists s, C0, (OVal (sn_val n)), (OVal (sn_val n)), []. split; auto. split; auto. split; auto. left. split; auto. all: repeat split; auto.
+  - rewrite (F2 L2). exists s, C0, (OVal 0%N), (OVal 0%N), []. split; auto. split; auto. split; auto. left. split; auto. all: repeat split; auto.
 Qed.
 
 Lemma kstep_count : forall rc s C0, SG s C0 -> kstep_ok rc s C0 Count [].
 Proof.
   intros. destruct rc as [[e1 e2] e3]. unfold kstep_ok, k_step, a_step. simpl. rewrite (sg_alive _ _ _ _ _ H). simpl.
-  exists s, C0, (OCount (Z.to_N (k_length s))), (OCount (N.of_nat (length (live (kabs s C0))))), []. repeat split; auto.
-  simpl. rewrite (sg_length _ _ _ _ _ H), wrap_count, live_kabs. simpl. rewrite map_length. auto.
+  exists s, C0, (OCount (Z.to_N (k_length s))), (OCount (N.of_nat (length (live (kabs s C0))))), []. split; auto. split; auto. split.
+  { simpl. rewrite (sg_length _ _ _ _ _ H), wrap_count, live_kabs. simpl. rewrite map_length. auto. }
+  left. split; auto. all: repeat split; auto.
 Qed.
 
 Lemma hsubs_put_node_other : forall s id n', id <> HEADER -> id < length (k_nodes s) -> hsubs (put_node s id n') = hsubs s.
@@ -649,25 +657,25 @@ Lemma kstep_notify_add : forall rc s C0 k fn ev ud, SG s C0 -> kstep_ok rc s C0 
 Proof.
   intros rc s C0 k fn ev ud G. destruct rc as [[e1 e2] e3]. unfold kstep_ok, k_step, a_step. simpl. rewrite (sg_alive _ _ _ _ _ G). simpl.
   unfold k_notify_add, a_notify_add. destruct k as [kk|].
-  - destruct (has_bit ev EV_FREE). { exists s, C0, (ORc e1), (ORc e1), []. repeat split; auto. }
+  - destruct (has_bit ev EV_FREE). { exists s, C0, (ORc e1), (ORc e1), []. split; auto. split; auto. split; auto. left. split; auto. all: repeat split; auto. }
     destruct (lookup_k s C0 kk G) as [m [L1 L2]]. rewrite L1. simpl.
     destruct (find_live_sent s C0 kk G) as [F1 F2]. destruct m as [y|].
     + destruct L2 as [Y1 Y2]. destruct (sg_node _ _ _ _ _ G y Y1) as [n [ky [N1 [N2 [N3 [N4 N5]]]]]]. rewrite N1. simpl.
       rewrite (F1 y Y1 Y2). rewrite (sent_node _ _ _ _ N1 N2). simpl.
-      destruct (nsub_conflict (sn_subs n) fn ev ud). { exists s, C0, (ORc e3), (ORc e3), []. repeat split; auto. }
+      destruct (nsub_conflict (sn_subs n) fn ev ud). { exists s, C0, (ORc e3), (ORc e3), []. split; auto. split; auto. split; auto. left. split; auto. all: repeat split; auto. }
       eexists _, C0, (ORc 0), (ORc 0), []. split; [reflexivity|]. split; [|split; [reflexivity|]].
       * f_equal. f_equal. symmetry.
         match goal with |- _ = set_ents _ (upd_entry _ _ ?f) => rewrite (kabs_put_node s C0 y n _ f G Y1 N1) end.
         { rewrite (sent_node _ _ _ _ N1 N2). reflexivity. }
         { simpl. rewrite N2. discriminate. }
         { rewrite sent_put_node by (eapply dnode_lt; eauto). rewrite Nat.eqb_refl. rewrite (sent_node _ _ _ _ N1 N2). simpl. rewrite N2. reflexivity. }
-      * left. split; [eapply sgood_put_node; eauto|split; [reflexivity|split; [reflexivity|auto]]].
-    + rewrite (F2 L2). exists s, C0, (ORc e1), (ORc e1), []. repeat split; auto.
+      * left. split; [eapply sgood_put_node; eauto|split; [reflexivity|split; [reflexivity|split; [auto|intros; eapply nkey_put_node; eauto]]]].
+    + rewrite (F2 L2). exists s, C0, (ORc e1), (ORc e1), []. split; auto. split; auto. split; auto. left. split; auto. all: repeat split; auto.
   - destruct (sg_hdr _ _ _ _ _ G) as [h [H1 [H2 H3]]]. change (r_subs (kabs s C0)) with (hsubs s). unfold hsubs. unfold HEADER in *. rewrite H1. simpl. rewrite ?H1. simpl.
-    destruct (nsub_conflict (sn_subs h) fn ev ud). { exists s, C0, (ORc e3), (ORc e3), []. repeat split; auto. }
+    destruct (nsub_conflict (sn_subs h) fn ev ud). { exists s, C0, (ORc e3), (ORc e3), []. split; auto. split; auto. split; auto. left. split; auto. all: repeat split; auto. }
     eexists _, C0, (ORc 0), (ORc 0), []. split; [reflexivity|]. split; [|split; [reflexivity|]].
     + f_equal. f_equal. symmetry. erewrite kabs_put_header; eauto.
-    + left. split; [eapply sgood_put_node; eauto|split; [reflexivity|split; [reflexivity|auto]]].
+    + left. split; [eapply sgood_put_node; eauto|split; [reflexivity|split; [reflexivity|split; [auto|intros; eapply nkey_put_node; eauto]]]].
 Qed.
 
 Lemma kstep_notify_del : forall rc s C0 k fn ev ud, SG s C0 -> kstep_ok rc s C0 (NotifyDel k fn ev ud) [].
@@ -678,20 +686,20 @@ Proof.
     destruct (find_live_sent s C0 kk G) as [F1 F2]. destruct m as [y|].
     + destruct L2 as [Y1 Y2]. destruct (sg_node _ _ _ _ _ G y Y1) as [n [ky [N1 [N2 [N3 [N4 N5]]]]]]. rewrite N1. simpl.
       rewrite (F1 y Y1 Y2). rewrite (sent_node _ _ _ _ N1 N2). simpl.
-      destruct (existsb (nsub_match fn ev ud) (sn_subs n)). 2:{ exists s, C0, (ORc e2), (ORc e2), []. repeat split; auto. }
+      destruct (existsb (nsub_match fn ev ud) (sn_subs n)). 2:{ exists s, C0, (ORc e2), (ORc e2), []. split; auto. split; auto. split; auto. left. split; auto. all: repeat split; auto. }
       eexists _, C0, (ORc 0), (ORc 0), []. split; [reflexivity|]. split; [|split; [reflexivity|]].
       * f_equal. f_equal. symmetry.
         match goal with |- _ = set_ents _ (upd_entry _ _ ?f) => rewrite (kabs_put_node s C0 y n _ f G Y1 N1) end.
         { rewrite (sent_node _ _ _ _ N1 N2). reflexivity. }
         { simpl. rewrite N2. discriminate. }
         { rewrite sent_put_node by (eapply dnode_lt; eauto). rewrite Nat.eqb_refl. rewrite (sent_node _ _ _ _ N1 N2). simpl. rewrite N2. reflexivity. }
-      * left. split; [eapply sgood_put_node; eauto|split; [reflexivity|split; [reflexivity|auto]]].
-    + rewrite (F2 L2). exists s, C0, (ORc e2), (ORc e2), []. repeat split; auto.
+      * left. split; [eapply sgood_put_node; eauto|split; [reflexivity|split; [reflexivity|split; [auto|intros; eapply nkey_put_node; eauto]]]].
+    + rewrite (F2 L2). exists s, C0, (ORc e2), (ORc e2), []. split; auto. split; auto. split; auto. left. split; auto. all: repeat split; auto.
   - destruct (sg_hdr _ _ _ _ _ G) as [h [H1 [H2 H3]]]. change (r_subs (kabs s C0)) with (hsubs s). unfold hsubs. unfold HEADER in *. rewrite H1. simpl. rewrite ?H1. simpl.
-    destruct (existsb (nsub_match fn ev ud) (sn_subs h)). 2:{ exists s, C0, (ORc e2), (ORc e2), []. repeat split; auto. }
+    destruct (existsb (nsub_match fn ev ud) (sn_subs h)). 2:{ exists s, C0, (ORc e2), (ORc e2), []. split; auto. split; auto. split; auto. left. split; auto. all: repeat split; auto. }
     eexists _, C0, (ORc 0), (ORc 0), []. split; [reflexivity|]. split; [|split; [reflexivity|]].
     + f_equal. f_equal. symmetry. erewrite kabs_put_header; eauto.
-    + left. split; [eapply sgood_put_node; eauto|split; [reflexivity|split; [reflexivity|auto]]].
+    + left. split; [eapply sgood_put_node; eauto|split; [reflexivity|split; [reflexivity|split; [auto|intros; eapply nkey_put_node; eauto]]]].
 Qed.
 
 (* ---------- canonical position of a key ---------- *)
@@ -1091,7 +1099,7 @@ Proof.
         { simpl. discriminate. }
         { rewrite sent_put_node by auto. rewrite Nat.eqb_refl. simpl. reflexivity. }
       * unfold r_notify. simpl. unfold hsubs. rewrite H1. reflexivity.
-    + left. split; [eapply sgood_put_node; eauto|split; [reflexivity|split; [reflexivity|auto]]].
+    + left. split; [eapply sgood_put_node; eauto|split; [reflexivity|split; [reflexivity|split; [auto|intros; eapply nkey_put_node; eauto]]]].
   - (* insertion *)
     subst R. cbn beta iota.
     change (find_live (r_ents (kabs s C0)) k) with (find_live (map (sent s) C0) k). rewrite (F2 (AB eq_refl)).
@@ -1120,13 +1128,15 @@ Proof.
             r_notify (kabs s C0) {| re_id := r_next (kabs s C0); re_key := k; re_val := x; re_removed := false; re_subs := [] |} EV_INSERTED k 0%N x) in
          (r', ONone, ns0)) = (kabs s' C0', x', ns) /\ x0 = out_wrap x' /\
         ((SG s' C0' /\ k_iters s' = k_iters s /\ k_used s' = k_used s /\
-          (forall y n, In y C0 -> dnode s y = Ok n -> sn_ref n <> 1 -> In y C0')) \/ k_alive s' = false)).
+          (forall y n, In y C0 -> dnode s y = Ok n -> sn_ref n <> 1 \/ (forall k0, Put k x <> Rm k0) -> In y C0') /\
+          (forall y, In y C0 -> In y C0' -> nkey s' y = nkey s y)) \/ k_alive s' = false)).
     { intros s1 u1 N1 A1 LEN1 IT1 US1 AL1 LV1 UV1.
       destruct (put_new_tail s C0 s1 u1 k x nl lo hi G RPN E LO HI Hnl N1 A1 LEN1 IT1 US1 AL1 LV1 UV1)
         as [s' [ns [P1 [P2 [P3 [P4 [P5 [P6 [P7 [P8 P9]]]]]]]]]].
       rewrite P1. cbn [bind].
-      exists s', (lo ++ length (k_nodes s) :: hi), ONone, ONone, ns. split; [reflexivity|]. split; [|split; [reflexivity|left; split; auto; split; auto; split; auto;
-        intros y0 n0 Hy0 _ _; rewrite E in Hy0; apply in_app_or in Hy0; apply in_or_app; destruct Hy0; auto; right; right; auto]].
+      exists s', (lo ++ length (k_nodes s) :: hi), ONone, ONone, ns. split; [reflexivity|]. split; [|split; [reflexivity|left; split; auto; split; auto; split; auto; split;
+        [intros y0 n0 Hy0 _ _; rewrite E in Hy0; apply in_app_or in Hy0; apply in_or_app; destruct Hy0; auto; right; right; auto
+        |intros y0 Hy0 _; rewrite <- !sent_key; rewrite P4; auto]]].
       f_equal. f_equal.
       - unfold kabs. simpl. f_equal.
         + rewrite E. rewrite !map_app. simpl. rewrite ins_before_app.
@@ -1502,7 +1512,7 @@ Proof.
   unfold a_rm. destruct (find_live_sent s C0 k G) as [F1 F2].
   change (find_live (r_ents (kabs s C0)) k) with (find_live (map (sent s) C0) k).
   destruct (rm_found s C0 k G) as [[A1 A2]|[lo [y [hi' [ny [h [s' [ns [E [N1 [N2 [H1 [A1 [G' [DS [LN [US [AL [IT CS]]]]]]]]]]]]]]]]]]].
-  { rewrite A1. cbn [bind]. rewrite (F2 A2). exists s, C0, (OBool false), (OBool false), []. repeat split; auto. }
+  { rewrite A1. cbn [bind]. rewrite (F2 A2). exists s, C0, (OBool false), (OBool false), []. split; auto. split; auto. split; auto. left. split; auto. all: repeat split; auto. }
   rewrite A1. cbn [bind].
   assert (YC : In y C0) by (rewrite E; apply in_or_app; right; left; auto).
   assert (KY : nkey s y = k) by (eapply nkey_some; eauto).
@@ -1532,8 +1542,10 @@ Proof.
       * auto.
       * auto.
     + rewrite NS. unfold r_notify. simpl. unfold hsubs. rewrite H1. reflexivity.
-  - left. split; auto. split; auto. split; auto. intros z nz Hz NZ RZ. exfalso. apply RZ.
-    destruct (sg_node _ _ _ _ _ G z Hz) as [m [kz [M1 [_ [M3 _]]]]]. rewrite NZ in M1. inversion M1; subst. eapply RONE; eauto.
+  - left. split; auto. split; auto. split; auto. split.
+    + intros z nz Hz NZ [RZ|RZ]; [|exfalso; eapply RZ; eauto]. exfalso. apply RZ.
+      destruct (sg_node _ _ _ _ _ G z Hz) as [m [kz [M1 [_ [M3 _]]]]]. rewrite NZ in M1. inversion M1; subst. eapply RONE; eauto.
+    + intros z _ Hz. unfold nkey. rewrite DS; auto. intro; subst z. rewrite E in NDC. apply NoDup_remove_2 in NDC. contradiction.
 Qed.
 
 (* ---------- destroy ---------- *)
